@@ -12,7 +12,7 @@ TRUSTED_BASE = [
     'Constant; OCaml 4.13.1 driver runner/main.ml; on every run a seeded sample of the cases of each suite is '
     'also evaluated inside Coq (vm_compute in coqc, terms printed by an independent parser, tools/coqcross.py) and '
     'must give exactly what the extracted runner printed',
-    'translator tools/translate.py (C04, C05, C07): reads the arithmetic formulas of base/src/utils, containers/src/{vec,string,flex}.rs, '
+    'translator tools/translate.py (C04, C05, C07, C15): reads the arithmetic formulas of base/src/utils, containers/src/{vec,string,flex}.rs, '
     'base/src/utils/iter.rs, macros/src/items/base.rs and the buffer window arithmetic of io/src/common/io.rs from the current source into coq/Generated/Kernel.v; trusted to parse '
     'the usize-expression subset faithfully (usize = N, truncated subtraction)',
     'correspondence check: harness/ (Rust, public API of flatty only), gen/*.py generators, tools/*.py comparison',
